@@ -209,6 +209,39 @@ func (m *Machine) callVx(fn *ssa.Function, a []Value) Value {
 	case "vxReach":
 		m.reached[m.mustStr(a[0], "vxReach id")] = true
 		return nil
+	case "vxEmit":
+		m.Emitted = append(m.Emitted, m.mustStr(a[0], "vxEmit"))
+		return nil
+	case "vxListing":
+		root := m.Env.abs(".")
+		var out Slice
+		for _, p := range m.Env.subtree(root) {
+			if p == root {
+				continue
+			}
+			out = append(out, strings.TrimPrefix(p, m.Env.Cwd+"/"))
+		}
+		return out
+	case "vxNVFile":
+		p := m.Env.abs(m.mustStr(a[0], "vxNVFile"))
+		m.Env.nextIno++
+		m.Env.Nodes[p] = &Node{Kind: KFile, Ino: m.Env.nextIno, Pre: true, MTime: int64(1), C: &Content{Origin: "pre", Status: int64(2), ID: int64(1)}}
+		return nil
+	case "vxNVLines":
+		p := m.Env.abs(m.mustStr(a[0], "vxNVLines"))
+		m.Env.nextIno++
+		ls := &Lines{}
+		for _, l := range a[1].(Slice) {
+			ls.L = append(ls.L, l)
+		}
+		m.Env.Nodes[p] = &Node{Kind: KFile, Ino: m.Env.nextIno, Pre: true, MTime: int64(1), C: &Content{Origin: "pre", Status: int64(2), Data: ls}}
+		return nil
+	case "vxFileLines":
+		n := m.Env.node(m.Env.abs(m.mustStr(a[0], "vxFileLines")))
+		if n == nil || n.C == nil {
+			return Slice(nil)
+		}
+		return Slice(m.splitLines(n.C.Data))
 	case "vxNote":
 		m.tracef("note: %s", m.describe(a[0]))
 		return nil
@@ -304,6 +337,9 @@ func (m *Machine) callVx(fn *ssa.Function, a []Value) Value {
 	case "vxYield":
 		m.yield()
 		return nil
+	case "vxPreemptAtFS":
+		m.Env.PreemptAtFS = m.DecideV(a[0])
+		return nil
 	case "vxPreemptBudget":
 		m.preemptBudget = int(m.toInt(a[0]))
 		return nil
@@ -355,6 +391,9 @@ func (m *Machine) callVx(fn *ssa.Function, a []Value) Value {
 		case *sym.Term:
 			m.Env.KillAt = c.Add(k, c.BV(k.Width, uint64(m.Env.Ops)))
 		}
+		return nil
+	case "vxKillAtDesc":
+		m.Env.KillAtDesc = m.mustStr(a[0], "vxKillAtDesc")
 		return nil
 	case "vxOps":
 		return m.Env.Ops
